@@ -72,6 +72,7 @@ AddNode(n, t, p, c) ==
 AddLink(l, t, a, b, c) ==
   /\ CanRecord /\ l \notin Dom(links) /\ a \in Dom(nodes) /\ b \in Dom(nodes) /\ a # b
   /\ (t = "hpump" => c # "") /\ (t # "hpump" => c = "")
+  /\ (t = "PRV" => nodes[a].type = "J" /\ nodes[b].type = "J")     \* add_valve refuses PRV/PSV/FCV next to a tank/reservoir
   /\ links' = Put(links, l, [type |-> t, a |-> a, b |-> b, pat |-> "", curve |-> c])
   /\ UNCHANGED <<nodes, pats, curves, srcs, ctls>> /\ Log("add_link", <<l, t, a, b, c>>, "ok")
 AddPattern(p) == /\ CanRecord /\ p \notin pats /\ pats' = pats \cup {p}
@@ -167,6 +168,7 @@ TypedPartition == /\ OfNodeType("J") \cup OfNodeType("T") \cup OfNodeType("R") =
                   /\ View.pipes \cup View.pumps \cup View.valves = Dom(links)
                   /\ View.head_pumps \cup View.power_pumps = View.pumps /\ View.prvs \cup View.tcvs = View.valves
 RefusalUnchanged == [][out' = "refused" => UNCHANGED data]_vars                                     \* C14.refusal_unchanged
+Bound == TLCGet("level") <= MaxLen + 1      \* depth bound for the model-checking configuration
 \* emission for the replay harness: complete histories, each entry with the view expected after the operation
 Emit == Record /\ Len(hist) = MaxLen => PrintT(<<"HIST", ToJson(hist)>>)
 =============================================================================
